@@ -5,6 +5,8 @@ SPEC = {
         {"comp": "sim_c17", "module": "QV.Sys.MonC17", "quick": 60, "thorough": 1500},
         {"comp": "sim_c17_data", "pymod": "sim_c17", "module": "QV.Sys.MonC01", "quick": 60, "thorough": 1500},
         {"comp": "sim_c17_done", "pymod": "sim_c17", "module": "QV.Sys.MonC02", "quick": 60, "thorough": 1500},
+        # the async API (quinn crate) on the deterministic executor: early handles after a rejection, id reuse
+        {"comp": "sim_c17_async", "module": "QV.Sys.MonC18", "quick": 60, "thorough": 1500},
     ],
     "assumptions": [
         "stream / flow-control part of C17 only (StreamsState); packet-space, TLS acceptance decision, server-side invisibility and early-data buffers are other components",
@@ -19,7 +21,11 @@ MANIFEST = {
              "the brand-new state has that shape. That every early operation sequence preserves the shape is stated (C17_rejected_is_fresh_full) "
              "and correspondence-tested only: the real rejected StreamsState is compared field by field, and on every later operation, with a real "
              "fresh StreamsState. The code as found refuted the property (F3 unacked_data, F6 max_data, plus the streams_blocked flags): "
-             "witnesses proved by vm_compute, replayed on the implementation (corpus/zero_rtt) and repaired by a fix: commit."),
+             "witnesses proved by vm_compute, replayed on the implementation (corpus/zero_rtt) and repaired by a fix: commit. "
+             "Async API (sim_c17_async, sampled): the real quinn crate on the deterministic executor, second connection via into_0rtt() "
+             "with accepted and rejected early data; the extracted monitor MonC18 checks that after a rejection every operation on an "
+             "early handle reports ZeroRttRejected, that fresh streams reusing the early ids deliver exactly their own bytes while the "
+             "stale handles are used and dropped, and the C18 wake-up invariants throughout (this found and fixed c61f15e)."),
     "note": ("Trusted: Coq kernel + vm_compute; hand-written models Model/ZeroRtt.v + Model/FlowSend.v (sampled agreement); hook zero_rtt.rs; "
              "python driver. No axioms. Partial: see C17_rejected_is_fresh_full in Props/C17.v."),
 }
